@@ -74,8 +74,29 @@ def test_snapshot():
     assert canon.snapshot(a) != canon.snapshot(b)
 
 
+def test_fixed_replays():
+    """Every witness of a repaired defect is re-executed as a plain unit test (no explorer):
+    the repaired tree must satisfy it.  Skipped when running against a scratch repository."""
+    import glob
+    import importlib
+    import json
+    if os.path.realpath(os.environ.get('YAQL_VERIF_REPO', '/repo')) != '/repo':
+        return
+    import vf.loader  # noqa: F401
+    here = os.path.realpath(os.path.join(os.path.dirname(__file__), '..'))
+    n = 0
+    for f in sorted(glob.glob(os.path.join(here, 'replays_fixed', '*.json'))):
+        rec = json.load(open(f))
+        mod = importlib.import_module('props.' + rec['property'].lower())
+        out = mod.replay(rec['case'])
+        assert out.get('ok'), (f, out)
+        n += 1
+    print('   replayed %d fixed witnesses' % n)
+
+
 if __name__ == '__main__':
     for name, fn in sorted(globals().items()):
         if name.startswith('test_'):
             fn()
             print('selftest', name, 'ok')
+
